@@ -1503,7 +1503,8 @@ match_rule_equal (BusMatchRule *a,
       strcmp (a->member, b->member) != 0)
     return FALSE;
 
-  if ((a->flags & BUS_MATCH_PATH) &&
+  /* path and path_namespace share the path member */
+  if ((a->flags & (BUS_MATCH_PATH | BUS_MATCH_PATH_NAMESPACE)) &&
       strcmp (a->path, b->path) != 0)
     return FALSE;
 
